@@ -2,7 +2,7 @@
 
 spec   : spec/VEcuContract.tla (contract: Chain / Matches / VisibleOk / NextStates, from the statement)
          spec/VEcu.tla (design: UDSServer.respond-shaped machine; Dev_S20_*, Dev_S20b_* deviations)
-MC     : MC_VEcu_oneoff (coverage, design-level E4), MC_VEcu_allq / _all (all 2^9 switch subsets),
+MC     : MC_VEcu_cov (action coverage), MC_VEcu_oneoff (design-level E4), MC_VEcu_allq / _all (all 2^9 switch subsets),
          MC_VEcu_devS20 / _devS20b negative controls
 binding: code -> spec: real RandomUDSServer(seed, parameters) behind UDSServerTransport.handle_request,
          every exchange validated by Trace_VEcu (TLC);
@@ -108,7 +108,7 @@ async def drive(tier: str, seed: int, corpus: E.Corpus, exp: R.Export | None, in
             corpus.add(m=mi, B=E.ALL, mode="E", steps=steps, meta=meta(sd, pa, "families", home=sess))
         # "disabling one behaviour": everything on / exactly one off x the full structural family
         for B in one_off()[1:]:
-            for sess in pick_sessions(m, 1 if quick else 3):
+            for sess in pick_sessions(m, 0 if quick else 3):
                 if sess != 1 and "sc" not in B:
                     continue
                 p.fresh(B)
@@ -174,28 +174,23 @@ async def drive(tier: str, seed: int, corpus: E.Corpus, exp: R.Export | None, in
         info["spec_to_code"] = await R.replay_export(exp, corpus, stride=1)
 
 
-async def drive_mutants(seed: int) -> dict[str, Any]:
-    """Binding self-test (ii): mutants of the server must be rejected by TLC."""
-    out: dict[str, Any] = {}
+async def drive_mutants(seed: int, corpus: E.Corpus) -> dict[str, list[dict[str, Any]]]:
+    """Binding self-test (ii): exchanges of mutated servers (added to `corpus`, validated by the caller)."""
+    out: dict[str, list[dict[str, Any]]] = {}
     rnd = random.Random(seed)
     base = await E.make_server(1 + 17 * seed, "mandatory")
     m = E.model_of(base)
-    for name, (cls, prefix) in mutant_servers().items():
+    mi = corpus.model_index(m)
+    for name, (cls, _prefix) in mutant_servers().items():
         mut = cls(base.seed, base.randomness_parameters)
         mut.services = base.services
         p = E.Probe(mut)
-        c = E.Corpus()
-        mi = c.model_index(m)
+        n0 = len(corpus.traces)
         for sess in pick_sessions(m, 1):
             p.fresh(E.ALL)
             steps = await C.run_history(p, m, C.structural_family(m, sess, rnd), home=sess)
-            c.add(m=mi, B=E.ALL, mode="E", steps=steps, meta={})
-        v = c.validate(parallel=1)
-        labels = sorted({lab for _id, (_v, bad, _u) in v.items() for _i, lab in bad})
-        out[name] = labels
-        if not any(lab.startswith(prefix) for lab in labels):
-            raise Machinery(f"binding self-test: server mutant '{name}' not rejected with a {prefix} clause "
-                            f"(labels: {labels}): the contract / corpus is too weak")
+            corpus.add(m=mi, B=E.ALL, mode="E", steps=steps, meta={"origin": "mutant", "mutant": name})
+        out[name] = corpus.traces[n0:]
     return out
 
 
@@ -235,7 +230,9 @@ def run(tier: str, seed: int) -> Report:
     pool = ThreadPoolExecutor(max_workers=3)
     # ---- 1. model checking (runs concurrently with the driving of the real code)
     mc_jobs = {
-        "MC_VEcu_oneoff": pool.submit(tlc.run_tlc, "MC_VEcu", "MC_VEcu_oneoff.cfg", coverage=True, timeout=1500,
+        "MC_VEcu_cov": pool.submit(tlc.run_tlc, "MC_VEcu", "MC_VEcu_cov.cfg", coverage=True, timeout=900,
+                                   workers=2, parse_prints=False),
+        "MC_VEcu_oneoff": pool.submit(tlc.run_tlc, "MC_VEcu", "MC_VEcu_oneoff.cfg", timeout=1500,
                                       workers=4, parse_prints=False),
         "MC_VEcu_devS20": pool.submit(tlc.run_tlc, "MC_VEcu", "MC_VEcu_devS20.cfg", timeout=900, workers=2,
                                       parse_prints=False),
@@ -259,7 +256,7 @@ def run(tier: str, seed: int) -> Report:
     asyncio.run(drive(tier, seed, corpus, exp, info))
     mark("drive")
     # ---- 4. TLC validates every exchange
-    verdicts = corpus.validate(parallel=6, steps_per_batch=25000)
+    verdicts = corpus.validate(parallel=5, steps_per_batch=36000)
     for res in corpus.tlc_results:
         rep.add_tlc(res, "Trace_VEcu batch")
     mark("validate")
@@ -284,8 +281,8 @@ def run(tier: str, seed: int) -> Report:
             a = agg.setdefault(key, {"label": label, "sig": sig, "n": 0, "detail": None})
             a["n"] += 1
             if a["detail"] is None or len(t["B"]) > len(a["detail"]["B"]):
-                lo = max(0, idx - 12)
-                start = t["init"] if lo == 0 else {"s": t["steps"][lo - 1]["s"], "l": t["steps"][lo - 1]["l"]}
+                lo = idx - 1 if t["indep"] else max(0, idx - 12)
+                start = t["init"] if lo == 0 or t["indep"] else {"s": t["steps"][lo - 1]["s"], "l": t["steps"][lo - 1]["l"]}
                 a["detail"] = {"meta": t["meta"], "B": t["B"], "start_state": start,
                                "requests": [s["hex"] for s in t["steps"][lo:idx]],
                                "failing": {k: t["steps"][idx - 1][k] for k in ("hex", "rhex", "x", "s", "l", "pk")},
@@ -301,7 +298,8 @@ def run(tier: str, seed: int) -> Report:
         for s in t["steps"]:
             if not (s["vk"] == "bytes" and s["vn"] == 3 and s["vb"][0] == 0x7F and s["vb"][2] == 0x11):
                 rep.nontrivial.add(hash((t["m"], bk, prev, s["hex"])))
-            prev = s["s"]
+            if not t["indep"]:
+                prev = s["s"]
     for t in (corpus.traces[0], corpus.traces[len(corpus.traces) // 2]):
         rep.sample({"model": t["meta"], "B": t["B"], "exchanges": [(s["hex"], s["rhex"], s["s"], s["l"])
                                                                      for s in t["steps"][:8]]})
@@ -317,7 +315,10 @@ def run(tier: str, seed: int) -> Report:
         "transition of the MC design model for the switch family of " + expcfg)
     # spec -> code: drift = design disagreements whose exchange TLC accepted
     s2c = info.get("spec_to_code", {"stats": {}, "disagreements": []})
-    drift = [d for d in s2c["disagreements"] if d["trace"] is None or (d["trace"], d["step"]) not in bad_steps]
+    bad_traces = {tid for tid, _i in bad_steps}
+    drift = [d for d in s2c["disagreements"]
+             if (d["step"] is not None and (d["trace"], d["step"]) not in bad_steps)
+             or (d["step"] is None and d["trace"] not in bad_traces)]
     for d in drift:
         rep.drift.append(d)
     rep.extra["spec_to_code"] = dict(s2c["stats"], design_disagreements=len(s2c["disagreements"]), drift=len(drift),
@@ -334,27 +335,42 @@ def run(tier: str, seed: int) -> Report:
         elif not res.ok:
             rep.violate(f"design/{res.violated}", {"where": "VEcu design layer", "cfg": name},
                         {"cex": res.cex[-4:], "out": res.out[-1500:]})
-        if name == "MC_VEcu_oneoff":
+        if name == "MC_VEcu_cov":
             cov = {mm.group(1): int(mm.group(3)) for mm in _RE_COV.finditer(res.out)}
             never = [a for a in DESIGN_ACTIONS if cov.get(a, 0) == 0]
             rep.extra["design_action_coverage"] = {a: cov.get(a, 0) for a in DESIGN_ACTIONS + ["Raises"]}
             if never:
-                raise Machinery(f"design actions never taken in MC_VEcu_oneoff: {never}")
+                raise Machinery(f"design actions never taken in MC_VEcu_cov: {never}")
     pool.shutdown()
     mark("model-checking (tail)")
-    # ---- 6. binding self-tests
-    rep.extra["binding_selftest"] = {"corrupted": selftest_corruption(corpus, verdicts),
-                                     "server_mutants": asyncio.run(drive_mutants(seed))}
+    # ---- 6. binding self-tests: (i) corrupted traces, (ii) mutated servers -- one TLC run
+    n_real = len(corpus.traces)
+    corrupted = corrupt_traces(corpus, verdicts)
+    mutants = asyncio.run(drive_mutants(seed, corpus))
+    sv = corpus.validate([c for _k, c in corrupted] + [t for ts in mutants.values() for t in ts], parallel=1,
+                         steps_per_batch=10**9)
+    del corpus.traces[n_real:]
+    cor = {k: sv[c["id"]][0] for k, c in corrupted}
+    if any(x == "ok" for x in cor.values()):
+        raise Machinery(f"binding self-test: corrupted traces accepted: {cor}")
+    mres: dict[str, list[str]] = {}
+    for name, (_cls, prefix) in mutant_servers().items():
+        labels = sorted({lab for t in mutants[name] for _i, lab in sv[t["id"]][1]})
+        mres[name] = labels
+        if not any(lab.startswith(prefix) for lab in labels):
+            raise Machinery(f"binding self-test: server mutant '{name}' not rejected with a {prefix} clause "
+                            f"(labels: {labels}): the contract / corpus is too weak")
+    rep.extra["binding_selftest"] = {"corrupted": cor, "server_mutants": mres}
     mark("selftests")
     E.unpatch_env()
     return rep
 
 
-def selftest_corruption(corpus: E.Corpus, verdicts: dict[int, tuple[str, list[tuple[int, str]], int]]) -> dict[str, str]:
-    """(i) corrupt one field of accepted traces: TLC must reject each."""
-    want = {"nrc": None, "state": None, "unsuppress": None, "suppress-negative": None}
+def corrupt_traces(corpus: E.Corpus, verdicts: dict[int, tuple[str, list[tuple[int, str]], int]]) -> list[tuple[str, dict[str, Any]]]:
+    """(i) one field of an accepted trace corrupted, four ways: TLC must reject each."""
+    want: dict[str, Any] = {"nrc": None, "state": None, "unsuppress": None, "suppress-negative": None}
     for t in corpus.traces:
-        if verdicts[t["id"]][0] != "ok" or t["B"] != sorted(E.ALL) or t["steps"][0]["pk"] == "unknown":
+        if verdicts[t["id"]][0] != "ok" or t["B"] != sorted(E.ALL) or t["steps"][0]["pk"] == "unknown" or t["indep"]:
             continue
         for i, s in enumerate(t["steps"]):
             neg = s["vk"] == "bytes" and s["vn"] == 3 and s["vb"][0] == 0x7F
@@ -379,14 +395,10 @@ def selftest_corruption(corpus: E.Corpus, verdicts: dict[int, tuple[str, list[tu
     missing = [k for k, v in want.items() if v is None]
     if missing:
         raise Machinery(f"binding self-test: no accepted trace to corrupt for {missing}")
-    cs = []
-    for k, c in want.items():
-        c["id"] = len(cs)
-        cs.append(c)
-    v = corpus.validate(cs, parallel=1)
-    out = {k: v[i][0] for i, k in enumerate(want)}
-    if any(x == "ok" for x in out.values()):
-        raise Machinery(f"binding self-test: corrupted traces accepted: {out}")
+    out = []
+    for j, (k, c) in enumerate(want.items()):
+        c["id"] = 10**7 + j
+        out.append((k, c))
     return out
 
 
